@@ -102,6 +102,17 @@ fn k_pack(n: usize, dm: u8) {
   p_pack(&a, c);
 }
 
+/// pack on sequences whose entries all have depth `dfix` < depth_max (merging at a depth that is not the deepest one)
+fn k_pack_d(n: usize, dm: u8, dfix: u8) {
+  let a = any_ops(n, dm);
+  let c: u64 = kani::any();
+  kani::assume(a.valid() && c < spec_n_hash(dm));
+  kani::assume((n < 1 || a.d[0] == dfix) && (n < 2 || a.d[1] == dfix) && (n < 3 || a.d[2] == dfix) && (n < 4 || a.d[3] == dfix));
+  kani::cover!(!a.packed(), "sequence with four full siblings");
+  kani::cover!(n == 4 && !a.f[0] && a.f[1] && a.f[2] && a.f[3] && (a.h[0] & 3) == 0 && a.h[3] == a.h[0] + 3, "partial first sibling followed by three full siblings");
+  p_pack(&a, c);
+}
+
 fn k_lower(n: usize, dm: u8, nd: u8, packing: bool) {
   let a = any_ops(n, dm);
   let c: u64 = kani::any();
